@@ -8,7 +8,7 @@ import json, os, subprocess, sys, time, shutil, concurrent.futures as cf, traceb
 from . import tlc
 
 VERIF = tlc.VERIF
-EVID = os.path.join(VERIF, "evidence")
+EVID = os.environ.get("VERIF_EVIDENCE_DIR") or os.path.join(VERIF, "evidence")   # override: tools/try_seeded.sh only
 REPLAYS = os.path.join(EVID, "replays")
 PY = "/venv/bin/python"
 NCPU = min(16, os.cpu_count() or 4)
